@@ -158,10 +158,11 @@ def streams(tier, rng, P, only=None, cases=None):
         pend = []
         for i in range(60 if big else 14):
             name = rng.choice(["abc", "riff", "x1", "qq", "Zed"]); value = rng.choice(["o5 l8 cde", "c d", "[2 e]", "l8 g", "o4 c2"])
-            gap = rng.choice(["", " ", "\t", " /* w */ ", "  "])
+            gap = rng.choice(["", " ", "\t", " /* w */ ", "  ", "/**/", " /** doc */ ", "/***/"])
             uses = [rng.choice([name, name, "r", "e8"]) for _ in range(rng.randrange(1, 5))]
             if name not in uses: uses.append(name)
-            pend.append(("~%s{%s}%s=%s{%s} %s" % (gap, name, rng.choice(["", " "]), rng.choice(["", " "]), value, " ".join(uses)), " ".join(value if u == name else u for u in uses)))
+            g2 = rng.choice(["", " ", "/**/", " /** x */ ", " /* y */"]); g3 = rng.choice(["", " ", "/**/", " /** z */"])
+            pend.append(("~%s{%s}%s=%s{%s} %s" % (gap, name, g2, g3, value, " ".join(uses)), " ".join(value if u == name else u for u in uses)))
         refs = run_oracle(P, ["compile %s 0 en lib" % hx(m_) for _, m_ in pend], 20.0, tag="c17m")
         for i, ((jp, mml_), r_) in enumerate(zip(pend, refs)):
             st_, f_ = parse_resp(r_)
